@@ -754,6 +754,59 @@ func (x *Exec) specialCall(st *State, i *ssa.Call, callee *ssa.Function, args []
 			}
 		}
 	}
+	// fmt.Sprintf("%0[1]*[2]b", w, v): v in binary, zero-padded to width w (documented fmt
+	// behaviour, ASSUMED; only this format is modelled - any other Sprintf result is opaque)
+	if callee.Pkg != nil && callee.Pkg.Pkg.Path() == "fmt" && callee.Name() == "Sprintf" && len(args) == 2 {
+		if fc, ok := i.Common().Args[0].(*ssa.Const); ok && fc.Value != nil && constantStringVal(fc) == "%0[1]*[2]b" {
+			if va, ok := args[1].(VSlice); ok {
+				payload := func(j int64) (VScalar, bool) {
+					e, ok := loadElem(st, &STy{K: TIface}, va.Reg, BVBin("bvadd", va.Off, BVInt(j, 64))).(VScalar)
+					if !ok || st.boxed == nil {
+						return VScalar{}, false
+					}
+					p, ok := st.boxed[e.T].(VScalar)
+					return p, ok && p.Ty.K == TInt
+				}
+				wv, ok1 := payload(0)
+				vv, ok2 := payload(1)
+				if ok1 && ok2 && wv.Ty.Signed {
+					x.W.Assumes[`fmt.Sprintf("%0[1]*[2]b", w, v) (w >= 0) is v in binary, zero-padded on the left to at least w characters; a negative signed v starts with '-' (documented fmt behaviour, assumed; checked concretely by the replay driver)`] = true
+					w64 := SExt(wv.T, 64)
+					var v64 *Term
+					neg := False
+					if vv.Ty.W == 64 {
+						v64 = vv.T
+					} else if vv.Ty.Signed {
+						v64 = SExt(vv.T, 64)
+					} else {
+						v64 = ZExt(vv.T, 64)
+					}
+					if vv.Ty.Signed {
+						neg = BVCmp("bvslt", v64, BVInt(0, 64))
+					}
+					reg := x.allocRegion(st, nil)
+					arr := FreshVar("sprintf.text", ArrSort(IdxSort, BV(8)))
+					hk := heapKey(tyU8, "")
+					st.heaps[hk] = Store(st.heap(hk, BV(8)), reg, arr)
+					ln := FreshVar("sprintf.len", IdxSort)
+					one, z := BVInt(1, 64), BVInt(0, 64)
+					okW := BVCmp("bvsle", z, w64)
+					// length: at least w and 1, all significant bits fit, no superfluous leading zero
+					fits := Or(BVCmp("bvsle", BVInt(64, 64), ln), Eq(BVBin("bvlshr", v64, ln), z))
+					lead := Eq(BVBin("bvand", BVBin("bvlshr", v64, BVBin("bvsub", ln, one)), one), one)
+					st.assume(BVCmp("bvsle", z, ln))
+					st.assume(BVCmp("bvsle", ln, BVInt(int64(1)<<32, 64)))
+					st.assume(Implies(And(okW, Not(neg)), And(BVCmp("bvsle", w64, ln), BVCmp("bvsle", one, ln), fits, Or(Eq(ln, w64), Eq(ln, one), lead))))
+					kv := BoundVar("k", IdxSort, "s64")
+					digit := BVBin("bvadd", BVInt(48, 8), Extract(7, 0, BVBin("bvand", BVBin("bvlshr", v64, BVBin("bvsub", BVBin("bvsub", ln, one), kv)), one)))
+					st.assume(Implies(And(okW, Not(neg)), Forall([]*Term{kv}, Implies(And(BVCmp("bvsle", z, kv), BVCmp("bvslt", kv, ln)), Eq(Select(arr, Mark(kv, "s64")), digit)))))
+					st.assume(Implies(And(okW, neg), And(BVCmp("bvsle", BVInt(2, 64), ln), Eq(Select(arr, z), BVInt(45, 8)))))
+					setResult(st, []Value{VSlice{Reg: reg, Off: z, Len: ln, Cap: ln, Ty: tyString}})
+					return x.finishSpecial(st, k)
+				}
+			}
+		}
+	}
 	// encoding/binary.Size of a pointer to a struct of fixed-size fields: computed from the
 	// declared type (documented: the sum of the sizes of the fields, no padding)
 	if callee.Pkg != nil && callee.Pkg.Pkg.Path() == "encoding/binary" && callee.Name() == "Size" {
@@ -772,6 +825,11 @@ func (x *Exec) specialCall(st *State, i *ssa.Call, callee *ssa.Function, args []
 		return true
 	}
 	return false
+}
+
+func (x *Exec) finishSpecial(st *State, k func(*State)) bool {
+	k(st)
+	return true
 }
 
 // binarySize: encoding/binary's size of a fixed-size type (-1/false when not fixed-size).
